@@ -1,18 +1,23 @@
 """C20 — the tensor codec loses nothing: correspondence cases for Codec.encode over U / C / B.
 
 One case = (tensor tree, descriptor, tensor shape declared or estimated, imposed shape or none,
-aspect).  The aspect selects which clause of the property the Lean side evaluates on the
+leaf scale, aspect).  Leaf values are the tree's integers divided by `scale`: scale 1 = Python ints,
+scale 4 = floats (dyadic, so that value * scale is exact); the Lean side always sees the integers.
+The aspect selects which clause of the property the Lean side evaluates on the
 implementation's observation: "decode" (per-rank arrays decode by layout to the content),
 "scan" (each encoded fiber scanned through its handle interface), "lookup" (coordToHandle of
-coordinate-list fibers), "size" (getSize = words of the layout).
+coordinate-list fibers), "size" (getSize = words of the layout), "walk" (depth-first walk of the whole encoded tensor through the handle
+interface, the parent's scan suspended while a child's scan runs, = the content).  The "scan" aspect also runs
+all fibers of a rank interleaved (every slice set up first, then nextInSlice round-robin).
 """
 import io, random, itertools, contextlib
 from harness import common as H
 
 PROP = "C20"
-ASPECTS = ["decode", "scan", "lookup", "size"]
+ASPECTS = ["decode", "scan", "lookup", "size", "walk"]
 RULE = ("cases = (tensor of depth 1-3, descriptor in {U,C,B}^depth, tensor shape declared/estimated, imposed "
-        "shape none/equal/larger, aspect in decode|scan|lookup|size); small scope: all 1-D fibers over 3 "
+        "shape none/equal/larger, leaf values int or float, aspect in decode|scan(isolated + interleaved per rank)|"
+        "lookup|size|walk(nested depth-first)); small scope: all 1-D fibers over 3 "
         "coordinates x {absent, explicit 0, v1, v2}, all 2-level trees over 2x2 coordinates x {absent, empty "
         "sub-fiber, leaf fiber over {absent, 0, v}}, 3-level trees over 2x2x2 (quick: seeded sample, thorough: "
         "all), each x all 3^depth descriptors x shape variants; random: depth 1-3, up to 5 coordinates per rank. "
@@ -67,12 +72,12 @@ def _variants(tree, depth, rng, full):
     return out
 
 
-def _cases(tree, depth, rng, full, descs=None, aspects=ASPECTS):
+def _cases(tree, depth, rng, full, descs=None, aspects=ASPECTS, scale=1):
     for declared, tsh, ish in _variants(tree, depth, rng, full):
         for desc in (descs or itertools.product("UCB", repeat=depth)):
             for asp in aspects:
                 yield {"prop": PROP, "d": depth, "t": tree, "fmts": "".join(desc), "tshape": tsh,
-                       "declared": declared, "ish": ish, "aspect": asp}
+                       "declared": declared, "ish": ish, "scale": scale, "aspect": asp}
 
 
 def leaf_fibers(n, states):
@@ -91,18 +96,19 @@ def gen(seed, tier):
     # depth 1: every fiber over 3 coordinates x {absent, explicit 0, 1, 2}
     for f in leaf_fibers(3, [0, 1, 2]):
         yield from _cases(f, 1, rng, True)
+        yield from _cases(f, 1, rng, False, scale=4)
     # depth 2: 2 x 2 coordinates
     l2 = leaf_fibers(2, [0, 5])
-    for t in trees2(2, l2):
-        yield from _cases(t, 2, rng, full)
+    for i, t in enumerate(trees2(2, l2)):
+        yield from _cases(t, 2, rng, full, scale=(1 if i % 2 == 0 else 4))
     # depth 3: 2 x 2 x 2 coordinates
     l1 = leaf_fibers(2, [7])
     mids = list(trees2(2, l1))
     tops = list(trees2(2, mids))
     if not full:
         tops = rng.sample(tops, 40)
-    for t in tops:
-        for c in _cases(t, 3, rng, False):
+    for i, t in enumerate(tops):
+        for c in _cases(t, 3, rng, False, scale=(1 if i % 2 == 0 else 4)):
             yield c
     # random
     nrand = 250 if tier == "quick" else 12000
@@ -114,13 +120,35 @@ def gen(seed, tier):
         if d == 3:
             descs = [tuple(rng.choice("UCB") for _ in range(3)) for _ in range(6 if full else 4)]
         asp = ASPECTS if full or i % 2 == 0 else [rng.choice(ASPECTS)]
-        for c in _cases(tree, d, rng, False, descs, asp):
+        for c in _cases(tree, d, rng, False, descs, asp, scale=rng.choice([1, 1, 4])):
             yield c
 
 
 # ---------------------------------------------------------------------------------------
 # running the real code
 # ---------------------------------------------------------------------------------------
+
+def _build(tree, depth, scale):
+    """real Fiber objects; leaves are ints (scale 1) or floats value/scale"""
+    F = H.ft().Fiber
+    if depth == 1:
+        vals = [v if scale == 1 else v / scale for _, v in tree]
+        return F([c for c, _ in tree], vals, default=0)
+    return F([c for c, _ in tree], [_build(s, depth - 1, scale) for _, s in tree], default=0)
+
+
+_BADVAL = 987654321
+
+
+def _val(v, scale):
+    """a leaf value as observed -> the model's integer (value * scale must be exact)"""
+    if v is None:
+        return None
+    if isinstance(v, bool) or not isinstance(v, (int, float)):
+        return _BADVAL
+    x = v * scale
+    return int(x) if x == int(x) else _BADVAL
+
 
 class _StubCache(dict):
     """the cache interface the format classes use (boltons LRU): get / [] / counters"""
@@ -139,31 +167,90 @@ def _index_of(lst, obj):
     return -2
 
 
-def _scan(f, name, nxt_rank, leaf, TwoHandle):
-    """setupSlice(0), nextInSlice() until None; per handle: coordinate, payload handle and the
-    payload it designates (leaf: payloadToValue; above: index in the next rank of the stored child
-    object, or - for C above U, which stores no payloads - payloadToFiberHandle)"""
+def _element(f, name, nxt_rank, leaf, h, scale):
+    """what one handle of a slice delivers: coordinate, payload handle and the payload it designates
+    (leaf: payloadToValue; above: index in the next rank of the stored child object, or - for C above
+    U, which stores no payloads - payloadToFiberHandle)"""
+    c = f.handleToCoord(h)
+    ph = f.handleToPayload(h)
+    if ph is None:
+        res = None
+    elif leaf:
+        res = _val(f.payloadToValue(ph), scale)
+    elif name == "C" and len(f.getPayloads()) == 0:
+        res = _opt(f.payloadToFiberHandle(ph))
+    else:
+        pl = f.getPayloads()
+        res = _index_of(nxt_rank, pl[ph]) if 0 <= ph < len(pl) else None
+    return [_opt(c), _opt(ph), res]
+
+
+def _scan(f, name, nxt_rank, leaf, scale):
+    """setupSlice(0), nextInSlice() until None"""
     rows = []
     f.setupSlice(0)
     for _ in range(10000):
         h = f.nextInSlice()
         if h is None:
             break
-        c = f.handleToCoord(h)
-        ph = f.handleToPayload(h)
-        if ph is None:
-            res = None
-        elif leaf:
-            res = f.payloadToValue(ph)
-        elif name == "C" and len(f.getPayloads()) == 0:
-            res = f.payloadToFiberHandle(ph)
-        else:
-            pl = f.getPayloads()
-            res = _index_of(nxt_rank, pl[ph]) if 0 <= ph < len(pl) else None
-        rows.append([_opt(c), _opt(ph), _opt(res)])
+        rows.append(_element(f, name, nxt_rank, leaf, h, scale))
     else:
         rows.append(["nonterminating", None, None])
     return rows
+
+
+def _scan_interleaved(rank, names, nxt_rank, leaf, scale):
+    """all fibers of a rank scanned at the same time: every slice is set up first, then the
+    fibers take turns calling nextInSlice() until each has returned None"""
+    rows = [[] for _ in rank]
+    for f in rank:
+        f.setupSlice(0)
+    active = list(range(len(rank)))
+    for _ in range(10000):
+        if not active:
+            break
+        still = []
+        for i in active:
+            f = rank[i]
+            h = f.nextInSlice()
+            if h is None:
+                continue
+            rows[i].append(_element(f, names.get(type(f), "?"), nxt_rank, leaf, h, scale))
+            still.append(i)
+        active = still
+    else:
+        for i in active:
+            rows[i].append(["nonterminating", None, None])
+    return rows
+
+
+class _WalkAbort(Exception):
+    pass
+
+
+def _walk(ot, names, d, r, idx, pre, out, budget, scale):
+    """depth-first walk of the encoded tensor through the handle interface only: the scan of a
+    fiber stays open while the fibers of its elements are scanned"""
+    f = ot[r][idx]
+    leaf = r == d
+    name = names.get(type(f), "?")
+    nxt = ot[r + 1] if r < d else []
+    f.setupSlice(0)
+    while True:
+        budget[0] -= 1
+        if budget[0] < 0:
+            raise _WalkAbort("nonterminating")
+        h = f.nextInSlice()
+        if h is None:
+            return
+        c, ph, res = _element(f, name, nxt, leaf, h, scale)
+        if leaf:
+            if res is None or res != 0:
+                out.append([pre + [c], res])
+        elif res is None or not (0 <= res < len(nxt)):
+            out.append([pre + [c, "dangling"], None])
+        else:
+            _walk(ot, names, d, r + 1, res, pre + [c], out, budget, scale)
 
 
 def run(case):
@@ -171,7 +258,8 @@ def run(case):
     Codec, names, TwoHandle = _mods()
     d, tree, desc = case["d"], case["t"], tuple(case["fmts"])
     ids = [f"R{i}" for i in range(d)]
-    fiber = H.build_fiber(tree, d, 0)
+    scale = case.get("scale", 1)
+    fiber = _build(tree, d, scale)
     kw = {"shape": list(case["tshape"])} if case["declared"] else {}
     t = ft.Tensor.fromFiber(rank_ids=ids, fiber=fiber, **kw)
     if t.getShape() != case["tshape"]:
@@ -191,7 +279,8 @@ def run(case):
         return case
     impl["root"] = [int(x) for x in out["payloads_root"]]
     impl["cs"] = [[int(x) for x in out["coords_" + i.lower()]] for i in ids]
-    impl["ps"] = [[int(x) for x in out["payloads_" + i.lower()]] for i in ids]
+    impl["ps"] = [[(_val(x, scale) if k == d - 1 else int(x)) for x in out["payloads_" + i.lower()]]
+                  for k, i in enumerate(ids)]
     asp = case["aspect"]
     cache = _StubCache()
     fibs = []
@@ -207,7 +296,7 @@ def run(case):
                  "next": names.get(f.next_fmt, "?") if f.next_fmt is not None else None,
                  "shape": _opt(f.shape) if name == "U" else (len(f.coords) if name == "B" else None),
                  "coords": [int(x) for x in f.coords], "occs": [int(x) for x in f.occupancies],
-                 "vals": [int(x) for x in f.payloads] if leaf else [],
+                 "vals": [_val(x, scale) for x in f.payloads] if leaf else [],
                  "npay": len(f.payloads),
                  "kids": [] if leaf else [_index_of(nxt, p) for p in f.payloads]}
             if r > 0:
@@ -223,7 +312,7 @@ def run(case):
                         side["size_no_exception:" + H.err_class(e)] = False
                 if asp == "scan":
                     try:
-                        o["scan"] = _scan(f, name, nxt, leaf, TwoHandle)
+                        o["scan"] = _scan(f, name, nxt, leaf, scale)
                         if name == "U" and not leaf and r > 0:
                             ok = all(f.payloadToFiberHandle(ph) == res for _, ph, res in o["scan"] if ph is not None)
                             if not ok:
@@ -239,7 +328,28 @@ def run(case):
                         o["lookup"] = []
                         side["lookup_no_exception:" + H.err_class(e)] = False
             row.append(o)
+        if asp == "scan" and r > 0:
+            with contextlib.redirect_stdout(buf):
+                try:
+                    for o, rows in zip(row, _scan_interleaved(rank, names, nxt, leaf, scale)):
+                        o["scan2"] = rows
+                except Exception as e:
+                    for o in row:
+                        o["scan2"] = [["error", None, None]]
+                    side["interleaved_scan_no_exception:" + H.err_class(e)] = False
         fibs.append(row)
+    if asp == "walk":
+        rows = []
+        with contextlib.redirect_stdout(buf):
+            try:
+                _walk(ot, names, d, 1, 0, [], rows, [20000], scale)
+            except _WalkAbort:
+                rows.append([["nonterminating"], None])
+                side["walk_terminates"] = False
+            except Exception as e:
+                rows.append([["error"], None])
+                side["walk_no_exception:" + H.err_class(e)] = False
+        impl["walk"] = rows
     impl["rootfib"] = fibs[0][0] if len(fibs[0]) == 1 else None
     impl["fibs"] = fibs[1:]
     case["impl"] = impl
